@@ -114,6 +114,15 @@ func (t *runTarget) Evaluate(engine runner.Engine) error {
 
 	verifPoint("eval.before-body", label.String())
 
+	// Record that the target is about to run so that an interrupted run is not mistaken for a
+	// completed one.
+	running := info
+	running.Rerun = true
+	if err = proj.saveTargetInfo(label, running); err != nil {
+		proj.events.TargetFailed(label, err)
+		return err
+	}
+
 	// Otherwise, evaluate the target.
 	data, changed, err := t.target.evaluate()
 	verifPoint("eval.after-body", label.String())
